@@ -520,7 +520,8 @@ class ManifestContext:
                 self.now,
                 options.availabilityStartTime,
                 options.timeShiftBufferDepth,
-                video.representations[0])
+                video.representations[0],
+                options.segmentTimeline, self.timing_ref)
             vid_cgi_params['verr'] = times
 
         if options.audioErrors and audio:
@@ -530,7 +531,8 @@ class ManifestContext:
                     self.now,
                     options.availabilityStartTime,
                     options.timeShiftBufferDepth,
-                    audio[0].representations[0])
+                    audio[0].representations[0],
+                    options.segmentTimeline, self.timing_ref)
                 aud_cgi_params['aerr'] = times
 
         if options.videoCorruption:
@@ -542,7 +544,8 @@ class ManifestContext:
                 self.now,
                 options.availabilityStartTime,
                 options.timeShiftBufferDepth,
-                video.representations[0])
+                video.representations[0],
+                options.segmentTimeline, self.timing_ref)
             vid_cgi_params['vcorrupt'] = segs
 
         if options.updateCount is not None:
@@ -562,7 +565,9 @@ class ManifestContext:
             now: datetime.datetime,
             availabilityStartTime: datetime.datetime,
             timeShiftBufferDepth: int,
-            representation: Representation) -> str:
+            representation: Representation,
+            time_addressed: bool = False,
+            timing_ref: StreamTimingReference | None = None) -> str:
         """
         Calculate a list of segment numbers for injecting errors
         :param errors: a list of error definitions. Each definition is a
@@ -589,9 +594,17 @@ class ManifestContext:
                 if tm < earliest_available:
                     continue
                 drop_delta = tm - availabilityStartTime
-                drop_seg = int(scale_timedelta(
-                    drop_delta, representation.timescale,
-                    representation.segment_duration))
+                if time_addressed and timing_ref is not None:
+                    # a segment requested by $Time$ is numbered by whole
+                    # loops of the stream plus its position in the loop
+                    drop_seg = representation.segment_index_containing(
+                        drop_delta, timing_ref)
+                else:
+                    # $Number$ URLs count from the start number, in steps
+                    # of the nominal segment duration
+                    drop_seg = representation.start_number + int(scale_timedelta(
+                        drop_delta, representation.timescale,
+                        representation.segment_duration))
             if code is None:
                 drops.append(f'{drop_seg}')
             else:
